@@ -1,0 +1,72 @@
+//go:build verif
+
+package engine
+
+import (
+	"fmt"
+	"sort"
+	"strings"
+
+	"github.com/jmeaster30/vore/libvore/bytecode"
+)
+
+// Verification hooks (build tag "verif").  They observe the search engine
+// after every executed instruction; with the tag off none of this exists.
+
+type VerifStep struct {
+	Attempt int    // start offset of the current attempt
+	PC0     int    // program counter before the instruction
+	Op      string // instruction kind
+	PC      int    // program counter after
+	Pos     int    // current file offset after
+	BT      int    // backtrack stack depth
+	Loops   int    // loop stack depth
+	Calls   int    // call stack depth
+	Open    int    // open variable records
+	Status  int    // 0 success, 1 failed, 2 in process
+	Env     string // sorted "k=v;" rendering of string bindings
+}
+
+var VerifStepHook func(VerifStep)
+
+func verifOpName(i bytecode.SearchInstruction) string {
+	return strings.TrimPrefix(fmt.Sprintf("%T", i), "bytecode.")
+}
+
+func verifEnv(m ValueHashMap) string {
+	keys := make([]string, 0, len(m.Value))
+	for k := range m.Value {
+		keys = append(keys, k)
+	}
+	sort.Strings(keys)
+	var sb strings.Builder
+	for _, k := range keys {
+		v := m.Value[k]
+		if v.getType() == ValueStringType {
+			sb.WriteString(k)
+			sb.WriteByte('=')
+			sb.WriteString(v.String().Value)
+			sb.WriteByte(';')
+		}
+	}
+	return sb.String()
+}
+
+func verifStep(pc0 int, inst bytecode.SearchInstruction, s *SearchEngineState) {
+	if VerifStepHook == nil {
+		return
+	}
+	VerifStepHook(VerifStep{
+		Attempt: s.startFileOffset,
+		PC0:     pc0,
+		Op:      verifOpName(inst),
+		PC:      s.programCounter,
+		Pos:     s.currentFileOffset,
+		BT:      int(s.backtrack.Size()),
+		Loops:   int(s.loopStack.Size()),
+		Calls:   int(s.callStack.Size()),
+		Open:    int(s.variableStack.Size()),
+		Status:  int(s.status),
+		Env:     verifEnv(s.environment),
+	})
+}
